@@ -126,6 +126,13 @@ impl C05 {
                 let kind = if name == "cc" { DevKind::Replace(vref::framing::tpkt(&s)) } else { DevKind::ReplaceInner(s) };
                 (b.into(), 0, vec![Deviation { msg: name, kind }], None)
             }
+            "frame" => {
+                // the whole server message replaced by raw (unframed) bytes: the TPKT/fast-path reader is the parser entry
+                let n = self.inner_strings();
+                let m = (i / n) as usize;
+                let s = self.inner_string(i % n);
+                (b.into(), 0, vec![Deviation { msg: self.inner_msgs[m].clone(), kind: DevKind::Replace(s) }], None)
+            }
             "direct" => {
                 let n = self.inner_strings();
                 let e = (i / n) as usize;
@@ -172,6 +179,7 @@ impl Prop for C05 {
             ("cc", self.cc_space.iter().map(|f| f.total()).sum()),
             ("conn", self.conn_space.iter().map(|f| f.total()).sum()),
             ("inner", self.inner_msgs.len() as u64 * n_inner),
+            ("frame", self.inner_msgs.len() as u64 * n_inner),
             ("direct", DIRECT.len() as u64 * n_inner),
         ];
         if tier == Tier::Thorough {
@@ -189,7 +197,7 @@ impl Prop for C05 {
         json!({"idx": idx, "block": b, "config": cfg, "deviations": devs, "direct_input_hex": direct.map(|d| vref::bytes::hex(&d))})
     }
     fn rule(&self) -> String {
-        "cases = an honest setup conversation with <=1 deviation (<=2 in thorough). [cc] x224::Client::connect for offered masks {3,1}: the connection confirm with every byte offset x value set (12 boundary values + honest+-1 in quick, all 256 in thorough), every offset as 16/32-bit field in both byte orders x boundary set, every truncation, extensions {+1,+2,+1500}; [conn] the same over connect-response, attach-confirm, both join-confirms and the licence PDU for two server configurations, executed through the real mcs::Client::connect + sec::connect; [inner] each message's payload replaced by every byte string of length <=2 (<=3) and every string of length 3..5 (..6) over {00,01,02,03,04,7F,80,FF}; [direct] the same strings fed to gcc::read_conference_create_response, license::client_connect and the per::read_* primitives; [pairs, thorough] all pairs of {byte:=00, byte:=FF, truncate} over all offsets of all five messages. Non-trivial: the deviation changed bytes the client consumed (the outcome differs from the honest one or the mutated message was reached).".into()
+        "cases = an honest setup conversation with <=1 deviation (<=2 in thorough). [cc] x224::Client::connect for offered masks {3,1}: the connection confirm with every byte offset x value set (12 boundary values + honest+-1 in quick, all 256 in thorough), every offset as 16/32-bit field in both byte orders x boundary set, every truncation, extensions {+1,+2,+1500}; [conn] the same over connect-response, attach-confirm, both join-confirms and the licence PDU for two server configurations, executed through the real mcs::Client::connect + sec::connect; [inner] each message's payload replaced by every byte string of length <=2 (<=3) and every string of length 3..5 (..6) over {00,01,02,03,04,7F,80,FF}; [frame] each whole message replaced by the same strings unframed (the TPKT / fast-path frame reader is the entry); [direct] the same strings fed to gcc::read_conference_create_response, license::client_connect and the per::read_* primitives; [pairs, thorough] all pairs of {byte:=00, byte:=FF, truncate} over all offsets of all five messages. Non-trivial: the deviation changed bytes the client consumed (the outcome differs from the honest one or the mutated message was reached).".into()
     }
     fn assumptions(&self) -> Vec<String> {
         vec![
